@@ -11,7 +11,7 @@ def handle (fn : String) (args : List Json) : String :=
     | [a0] => (do let x0 ← Wire.decStr a0; pure (Wire.respondWith Wire.encStr (Gen.za_idnr.format x0)) : Option String).getD "badargs"
     | _ => "badargs"
   | "get_birth_date" => match args with
-    | [t, a0] => (do let today ← Wire.decDate t; let x0 ← Wire.decStr a0; pure (Wire.respondWith Wire.encDate (Gen.za_idnr.get_birth_date today x0)) : Option String).getD "badargs"
+    | [t, a0] => (do let today__ ← Wire.decDate t; let x0 ← Wire.decStr a0; pure (Wire.respondWith Wire.encDate (Gen.za_idnr.get_birth_date today__ x0)) : Option String).getD "badargs"
     | _ => "badargs"
   | "get_citizenship" => match args with
     | [a0] => (do let x0 ← Wire.decStr a0; pure (Wire.respondWith Wire.encStr (Gen.za_idnr.get_citizenship x0)) : Option String).getD "badargs"
@@ -20,10 +20,10 @@ def handle (fn : String) (args : List Json) : String :=
     | [a0] => (do let x0 ← Wire.decStr a0; pure (Wire.respondWith Wire.encStr (Gen.za_idnr.get_gender x0)) : Option String).getD "badargs"
     | _ => "badargs"
   | "is_valid" => match args with
-    | [t, a0] => (do let today ← Wire.decDate t; let x0 ← Wire.decStr a0; pure (Wire.respondWith Wire.encBool (Gen.za_idnr.is_valid today x0)) : Option String).getD "badargs"
+    | [t, a0] => (do let today__ ← Wire.decDate t; let x0 ← Wire.decStr a0; pure (Wire.respondWith Wire.encBool (Gen.za_idnr.is_valid today__ x0)) : Option String).getD "badargs"
     | _ => "badargs"
   | "validate" => match args with
-    | [t, a0] => (do let today ← Wire.decDate t; let x0 ← Wire.decStr a0; pure (Wire.respondWith Wire.encStr (Gen.za_idnr.validate today x0)) : Option String).getD "badargs"
+    | [t, a0] => (do let today__ ← Wire.decDate t; let x0 ← Wire.decStr a0; pure (Wire.respondWith Wire.encStr (Gen.za_idnr.validate today__ x0)) : Option String).getD "badargs"
     | _ => "badargs"
   | _ => "nofunc"
 end Driver.D_za_idnr
